@@ -706,6 +706,71 @@ func (env *SpecEnv) evalCall(x *SCall) Val {
 			return Sc{Select(mm.T, env.eval(x.Args[1]).(Sc).T)}
 		}
 		env.fail("has() on %T", m)
+	case "setsum":
+		// setsum(W, S, extra...): the sum of W(k, extra...) over the members k of the set S (a
+		// visitedN ghost set of a map range, or the key set keys(m) of a map).  Uninterpreted, with
+		// the two laws of a finite sum: empty set -> 0; adding a non-member k adds W(k, extra...).
+		if len(x.Args) < 2 {
+			env.fail("setsum(W, S, extra...)")
+		}
+		wid, ok := x.Args[0].(*SIdent)
+		if !ok {
+			env.fail("setsum: first argument must name a spec function")
+		}
+		wf := in.W.specFunc(env.pkgPath, wid.Name)
+		if wf == nil || len(wf.Params) != len(x.Args)-1 {
+			env.fail("setsum: %s must be a spec function of (key, extra...)", wid.Name)
+		}
+		sv, ok := env.eval(x.Args[1]).(Sc)
+		if !ok || !strings.HasPrefix(sv.T.Sort, "(Array ") || !strings.HasSuffix(sv.T.Sort, " Bool)") {
+			env.fail("setsum: second argument must be a set (visitedN or keys(m))")
+		}
+		ks := strings.TrimSuffix(strings.TrimPrefix(sv.T.Sort, "(Array "), " Bool)")
+		ts := []Term{sv.T}
+		sorts := []string{sv.T.Sort}
+		for _, a := range x.Args[2:] {
+			t := env.evalInt(a)
+			ts = append(ts, t)
+			sorts = append(sorts, SInt)
+		}
+		fn := "setsum_" + sanitize(wf.Pkg) + "_" + wf.Name
+		in.D.declareFun(fn, sorts, SInt)
+		if !in.D.seen["setsumax:"+fn] {
+			in.D.seen["setsumax:"+fn] = true
+			sV := Term{S: "S!ss", Sort: sv.T.Sort}
+			kV := Term{S: "k!ss", Sort: ks}
+			var ex []Term
+			sub := &SpecEnv{in: in, f: env.f, st: env.st, old: env.old, vars: map[string]Val{}, pkgPath: env.pkgPath, depth: env.depth + 1}
+			call := &SCall{Fun: &SIdent{wid.Name}, Args: []SExpr{&SIdent{"k__ss"}}}
+			sub.vars["k__ss"] = env.thawSort(kV)
+			for i := range x.Args[2:] {
+				e := Term{S: fmt.Sprintf("e%d!ss", i), Sort: SInt}
+				ex = append(ex, e)
+				nm := fmt.Sprintf("e%d__ss", i)
+				sub.vars[nm] = Sc{e}
+				call.Args = append(call.Args, &SIdent{nm})
+			}
+			w := sub.evalInt(call)
+			empty := Term{S: fmt.Sprintf("((as const %s) false)", sv.T.Sort), Sort: sv.T.Sort}
+			a1 := Eq(App(fn, SInt, append([]Term{empty}, ex...)...), IntLit(0))
+			if len(ex) > 0 {
+				a1 = Forall(ex, a1, []Term{App(fn, SInt, append([]Term{empty}, ex...)...)})
+			}
+			grown := App(fn, SInt, append([]Term{Store(sV, kV, TTrue)}, ex...)...)
+			a2 := Forall(append([]Term{sV, kV}, ex...), Implies(Not(Select(sV, kV)), Eq(grown, Add(App(fn, SInt, append([]Term{sV}, ex...)...), w))), []Term{grown})
+			in.D.declareOnce("setsumax1:"+fn, fmt.Sprintf("(assert %s)", a1.S))
+			in.D.declareOnce("setsumax2:"+fn, fmt.Sprintf("(assert %s)", a2.S))
+			in.note("setsum: uninterpreted finite sum over a set with its two defining laws (empty set, adding a non-member)")
+		}
+		return Sc{App(fn, SInt, ts...)}
+	case "keys":
+		// keys(m): the key set of a map as a set value
+		argn(1)
+		if mm, ok := env.eval(x.Args[0]).(MapV); ok {
+			mc := in.load(env.st, mm.M, env.f).(MapC)
+			return Sc{mc.Has}
+		}
+		env.fail("keys() of a non-map")
 	case "window.Window", "arrayview":
 		// conversion of a byte-slice view to an array value: the content shifted to index 0
 		argn(1)
